@@ -112,6 +112,7 @@ Theorem C05_monitor_needs_uid_inj : exists sc c0,
   (forall c, In c (objs c0) -> (c_uid c < next_uid c0)%N) /\
   (forall n l, sc_inv_ns sc = Some n -> inv c0 = Some l -> In n (map c_id (objs c0)) \/ In n l) /\
   (o_destroy (sc_opts sc) = true -> o_prune (sc_opts sc) = true) /\
+  wf_fin_b sc c0 = true /\
   mon_C05_order sc c0 (run sc c0) = true /\ mon_C05 sc c0 (run sc c0) = false.
 Proof. exact monitor_C05_needs_uid_inj. Qed.
 
